@@ -119,8 +119,11 @@ def cases(tier, seed):
                                 nstart_x=nx0, sel_x=sx, sample_x=max(sx, 3), b_x=2, start=start, every=every, iters=start + every * 8 + 1,
                                 seed=sd + n, land=lands[n % 3], ret="scalar"))
     # refinement driven by a SYSTEM loss (two equations of opposite sign sharing one unknown)
-    sysl = [dict(c, sys=True, ret=("vec", "scalar")[(k // (5 if q else 3)) % 2]) for k, c in enumerate(out)
-            if k % (5 if q else 3) == 0 and c.get("ret") != "vec2"]
+    sysl, seen = [], {}
+    for k, c in enumerate(out):
+        if k % (5 if q else 3) == 0 and c.get("ret") != "vec2":
+            j = seen[c["kind"]] = seen.get(c["kind"], 0) + 1        # vector / scalar residuals alternate WITHIN each generator kind
+            sysl.append(dict(c, sys=True, ret=("vec", "scalar")[j % 2]))
     out += sysl
     # chained training calls: the recorded history is a second call fed with the generator returned by a first call of
     # `resume` iterations (stopped inside / at the end of a period, before / after the start iteration)
